@@ -16,7 +16,7 @@ import (
 
 func init() {
 	register("C01", core.Spec{
-		Decides: "the obligation structure of the Wuffs bounds checker (lang/check): on every control-flow path of the named checker functions, each construct that cgen emits unchecked (index, slice, call argument, divide/modulus, shift, bitwise op, nullable receiver, unchecked I/O built-ins) passes through its specific proof call or range guard before any accepting exit; the built-in pre-condition tables (ioMethodAdvances, the cpu_arch slice suffix switch, numTypeBounds/numShiftBounds) agree with the operations they guard and with cgen's sibling tables; the safety phases are wired into check.Check; public-function argument re-validation is emitted for every pointer/refined parameter class",
+		Decides:    "the obligation structure of the Wuffs bounds checker (lang/check): on every control-flow path of the named checker functions, each construct that cgen emits unchecked (index, slice, call argument, divide/modulus, shift, bitwise op, nullable receiver, unchecked I/O built-ins) passes through its specific proof call or range guard before any accepting exit; the built-in pre-condition tables (ioMethodAdvances, the cpu_arch slice suffix switch, numTypeBounds/numShiftBounds) agree with the operations they guard and with cgen's sibling tables; the safety phases are wired into check.Check; public-function argument re-validation is emitted for every pointer/refined parameter class",
 		NotDecided: "that the *values* proved are right — interval results (C06), facts.refine arithmetic, aliasing between a slice and its source array, staleness of facts (C02); the accepted-unsafe programs listed in the property text exploit those and are invisible to these rules. This is a necessary-condition check of checker structure, not a soundness proof of the checker",
 		Assumptions: []string{"go/types, go/cfg (x/tools v0.29.0) model Go control flow faithfully",
 			"error-return idioms enumerated in core.IsErrorReturn (fmt.Errorf, errors.New, package-level error vars, `return err` under `if err != nil`)",
@@ -294,10 +294,14 @@ func runC01(c *core.Ctx) {
 			q = exitQ(region)
 			k.passChecked("O4.sub.lhs", anchor, "x[i..j]: the sliced operand is bounds-checked", fl, q, fl.Call(bcheckExpr, lhsP))
 			q = exitQ(region)
-			q.Exempt = func(cond ast.Expr, ci *core.CondInfo, taken bool) bool { return !taken && nilTest(fl, cond, mhsV, false) }
+			q.Exempt = func(cond ast.Expr, ci *core.CondInfo, taken bool) bool {
+				return !taken && nilTest(fl, cond, mhsV, false)
+			}
 			k.passChecked("O4.sub.mhs", anchor, "x[i..j]: i is bounds-checked when present", fl, q, fl.Call(bcheckExpr, mhsV))
 			q = exitQ(region)
-			q.Exempt = func(cond ast.Expr, ci *core.CondInfo, taken bool) bool { return !taken && nilTest(fl, cond, rhsV, false) }
+			q.Exempt = func(cond ast.Expr, ci *core.CondInfo, taken bool) bool {
+				return !taken && nilTest(fl, cond, rhsV, false)
+			}
 			k.passChecked("O4.sub.rhs", anchor, "x[i..j]: j is bounds-checked when present", fl, q, fl.Call(bcheckExpr, rhsV))
 			_ = mhsP
 		}
@@ -359,7 +363,9 @@ func runC01(c *core.Ctx) {
 			// The loop is reached on every accepting path.
 			k.mustPass("O5.loop", anchor, "the argument loop is on every accepting path", fl, core.Query{
 				Exit: fl.SuccessReturn, FuncEnd: true,
-				Events: []core.Event{{Node: func(x ast.Node) bool { return x == loop.X || x == ast.Node(loop) || (x.Pos() >= loop.Pos() && x.End() <= loop.End()) }}},
+				Events: []core.Event{{Node: func(x ast.Node) bool {
+					return x == loop.X || x == ast.Node(loop) || (x.Pos() >= loop.Pos() && x.End() <= loop.End())
+				}}},
 			})
 		}
 		recvP := fl.Denotes(fl.MethodChain(fl.Denotes(fl.MethodChain(fl.Is(n), "LHS", "AsExpr")), "LHS", "AsExpr"))
@@ -398,8 +404,8 @@ func runC01(c *core.Ctx) {
 		opIs := func(e ast.Expr) bool { return fl.Is(op)(e) }
 		type sg struct {
 			rule, konst, claim string
-			v                 core.ExprPred
-			want              string
+			v                  core.ExprPred
+			want               string
 		}
 		for _, r := range []sg{
 			{"O6a.lhs", "IDXBinarySlash", "x / y and x % y: a possibly negative dividend (lb[0].Sign() < 0) is rejected", lbP, "-"},
